@@ -70,7 +70,10 @@ use super::{TEST_VM_INVALID_POST, TEST_VM_RAND_ARRAY, Vvm};
 pub struct TopCtx {
     pub originator_stable_addr: Address,
     pub originator_call_seq: u64,
-    pub new_actor_addr_count: RefCell<u64>,
+    /// shared by every nested context of one top-level message (ref-fvm: the call manager's
+    /// `num_actors_created`); test_vm clones the counter per context, which makes two
+    /// creations in one message collide on the same robust address
+    pub new_actor_addr_count: Rc<RefCell<u64>>,
     pub circ_supply: TokenAmount,
 }
 
